@@ -1,4 +1,5 @@
 """C06 - encryption artifacts are mutually consistent and decrypt to the firmware (DESIGN.md section 5, C06)."""
+import hashlib
 import os
 import shutil
 
@@ -55,6 +56,9 @@ def embed_check(rec, info_path, info, wd, full):
                           observed={"param": node.raw if node is not None else None, "info": info})
 
 
+KEY_NAMES = ["fw_key_0", "fw_key_1", "fw_key_0.v2", "fw_key_2", "fw.enc.key", "app.core"]
+
+
 def case_encrypt(rec, case):
     r = common.case_rng(case["seed"], ID, case["n"])
     wd = rec.tmpdir()
@@ -64,8 +68,12 @@ def case_encrypt(rec, case):
     alg = case.get("alg", HASHES[(case["n"] // 5) % 5])
     key = r.randbytes(32)
     keysdir = os.path.join(wd, "enckeys")
-    kname = f"fw_key_{case['n'] % 3}"
+    kname = KEY_NAMES[(case["n"] // 2) % len(KEY_NAMES)]
     X.make_key(keysdir, kname, key)
+    if "." in kname:
+        # a sibling named like the part before the last dot holds ANOTHER key: the NAMED key must be used
+        X.make_key(keysdir, kname.rsplit(".", 1)[0], hashlib.sha256(key).digest())
+        rec.count("key-name-with-dot-and-sibling")
     x = r.random()
     route = case.get("route") or ("sub" if x < (0.012 if rec.tier == "quick" else 0.003) else
                                   "plugin" if x < 0.3 else "cli" if x < 0.55 else "cmd")
@@ -82,7 +90,9 @@ def case_encrypt(rec, case):
     try:
         if route == "plugin":
             try:
-                ec, tag, info, dg, ln = X.plugin_encrypt(pt, kname, kid, keysdir, alg)
+                reuse = case["n"] % 2 == 0
+                rec.count("plugin:encryptor-object-" + ("reused" if reuse else "fresh"))
+                ec, tag, info, dg, ln = X.plugin_encrypt(pt, kname, kid, keysdir, alg, reuse=reuse)
                 exc = None
                 for n_, b in (("plain_text_digest.bin", dg), ("plain_text_size.txt", str(ln).encode()),
                               ("suit_encryption_info.bin", info), ("encrypted_content.bin", tag + ec)):
